@@ -2,7 +2,7 @@
 from sfmon.findings import predicate
 
 _WIDENING_OPS = {'fillna', 'fillna_leading', 'fillna_trailing', 'fillna_leading_axis1', 'fillna_trailing_axis1', 'fillna_forward', 'fillna_backward', 'fillna_forward_limited', 'fillna_backward_limited', 'fillna_frame', 'astype_all',
-                 'astype_cols', 'via_str', 'binop_scalar', 'binop_array', 'assign_bloc', 'assign_scalar', 'assign_column_array'}
+                 'astype_cols', 'via_str', 'binop_scalar', 'binop_array', 'assign_bloc', 'assign_scalar', 'assign_column_array', 'clip_frame'}
 
 
 @predicate
